@@ -9,3 +9,7 @@ import Femio.Props.C14
 #print axioms Femio.C14.C14_effective_colsum
 #print axioms Femio.C14.C14_effective_total
 #print axioms Femio.C14.C14_incidence_of_mesh
+#print axioms Femio.C14.C14_call_returns_arguments
+#print axioms Femio.C14.C14_history_fresh
+#print axioms Femio.C14.C14_history_value
+#print axioms Femio.C14.C14_inplace_counterexample
